@@ -1081,7 +1081,7 @@ def oracle_converter(rng, n, stats, known):
         mode = rng.choice(['series', 'frame'])
         case = {'entry': 'converter', 'mode': mode, 'dtype': str(s.dtype), 'values': [cell(x) for x in vals], 'inplace': inplace, 'return_col': return_col}
         present = [x for x in vals if not is_missing(x)]
-        numeric = kind in ('int', 'float_int', 'float', 'float_allnan', 'empty_float')
+        numeric = kind in ('int', 'float_int', 'float', 'float_inf', 'float_allnan', 'empty_float')
         all_int = numeric and len(present) > 0 and all(float(x).is_integer() for x in present)
 
         def expected(x):
